@@ -29,8 +29,8 @@ EXPLANATION = (
 RULE_TEXT = 'one obligation per back-pointer site, note setter, link site (origin tag), locate_table call, default-schema site, enum-match clause, parser-wiring site and key-holder kind'
 ASSUMPTIONS = ['decides the structural conditions per link-creating function; consistency of the whole graph for every document is not decided',
                'the order of the two lookups in locate_table is not an obligation (key spaces overlap only for quoted names containing a dot)']
-ENGINES = ['pyindex', 'paths']
-TECHNIQUE = 'static analysis (ast): origin-tag dataflow on link-creating functions, guard/condition normal forms by path enumeration, sibling-constant and dispatch-table agreement rules'
+ENGINES = ['pyindex', 'paths', 'specialise', 'peval']
+TECHNIQUE = 'static analysis (ast): origin-tag dataflow on link-creating functions, guard/condition normal forms by path enumeration, sibling-constant and dispatch-table agreement rules; per-class specialisation of parse_blueprint (which objects get the parser); spelling-set analysis of enum matching; partial evaluation per kind of the key-holder selection'
 
 BP = 'pydbml.parser.blueprints'
 PARSER = 'pydbml.parser.parser'
